@@ -183,4 +183,67 @@ def projectFields : List (String × Bool × GoTy) → Fields → Option Fields
     | _, _ => none
 end
 
+/-! ### struct members: which member of the argument object a field is bound to
+
+JSON member names are case-sensitive. `projectFields` binds the field with JSON name `n` to the member
+named EXACTLY `n` (`lookupJ n`) — `internaljson.Unmarshal`, i.e. the decoder with
+`DontMatchCaseInsensitiveStructFields`. The vocabulary below names the pieces; `GoTyLemmas.lean` proves
+that this is all a field ever depends on. -/
+
+abbrev SFields := List (String × Bool × GoTy)
+
+/-- the JSON names of a struct's members -/
+def fieldNames (fs : SFields) : List String := fs.map (·.1)
+
+/-- the members the decode of a struct looks at: those of an object; none for `null` -/
+def membersOf : JVal → Fields
+  | .obj kvs => kvs
+  | _ => []
+
+/-- what the field of type `t` bound to name `n` holds after decoding `kvs` (re-encoded): the decoding of
+the member named exactly `n`, the zero value when there is no such member; `none` = decode error -/
+def fieldDecode (t : GoTy) (kvs : Fields) (n : String) : Option JVal :=
+  match lookupJ n kvs with
+  | some x => project t x
+  | none => some (zeroJ t)
+
+/-- how a field's value shows in the re-encoded struct (`omitempty`) -/
+def fieldShown (oe : Bool) (t : GoTy) (y : JVal) : Option JVal :=
+  if oe && isEmptyGo t y then none else some y
+
+/-! ### the decode the wrapper must NOT use
+
+`encoding/json` matches object members to struct fields up to case (`fold` normalises a name) and
+assigns members in the order of the text, so the LAST member matching a field wins; `applySchema`
+re-marshals a `map[string]any`, hence keys reach the decoder sorted by name. Only used for the counter-example
+`fold_decode_counterexample` (why `project` being exact-name is part of C16). -/
+
+/-- the member a name-folding decoder binds to field `n`: of those whose name folds like `n`, the one
+with the greatest name — the last one in the key-sorted text -/
+def lookupFoldKV (fold : String → String) (n : String) : Fields → Option (String × JVal)
+  | [] => none
+  | (k, v) :: t =>
+    let r := lookupFoldKV fold n t
+    if fold k = fold n then
+      match r with
+      | some (k', w) => if k < k' then some (k', w) else some (k, v)
+      | none => some (k, v)
+    else r
+
+def lookupFold (fold : String → String) (n : String) (kvs : Fields) : Option JVal :=
+  (lookupFoldKV fold n kvs).map (·.2)
+
+def projectFieldsFold (fold : String → String) : SFields → Fields → Option Fields
+  | [], _ => some []
+  | (n, oe, t) :: rest, kvs =>
+    match (match lookupFold fold n kvs with | some x => project t x | none => some (zeroJ t)),
+          projectFieldsFold fold rest kvs with
+    | some y, some ys => some (if oe && isEmptyGo t y then ys else (n, y) :: ys)
+    | _, _ => none
+
+/-- a decoder that folds member names at the top level of a struct -/
+def projectFold (fold : String → String) : GoTy → JVal → Option JVal
+  | .struct fs, .obj kvs => (projectFieldsFold fold fs kvs).map .obj
+  | t, j => project t j
+
 end TypedTool
